@@ -33,6 +33,18 @@ pub fn unary<T: Fx>(thorough: bool) -> Vec<(String, Space)> {
     unary_low::<T>(thorough, 12)
 }
 
+/// unary spaces of the totality cells (C16): the thorough tier uses the top-27-bit lattice + alphabet + cut x tail
+/// alphabet instead of all 2^32 patterns (some forty functions x two build profiles)
+pub fn unary_total<T: Fx>(thorough: bool) -> Vec<(String, Space)> {
+    if T::N == 32 && thorough {
+        let mut v = unary_low::<T>(false, 5);
+        v.push(("#cuts".into(), Space::list32(vpcore::alpha::cut_tail_alphabet(32, 2, 6), "every scale x cut position x 5 kept prefixes x every 6-bit tail below the cut")));
+        v
+    } else {
+        unary::<T>(thorough)
+    }
+}
+
 /// unary spaces with a chosen lattice density for the quick tier of P32E2 (`low` = number of low bits taken
 /// from the menu {0, 1, ones, msb}; low = 0 means the complete 2^32 space also in the quick tier)
 pub fn unary_low<T: Fx>(thorough: bool, low: u32) -> Vec<(String, Space)> {
